@@ -8,7 +8,7 @@ for d in seeded/${1:-}*/; do
   p=$d/patch.rebased.diff; [ -f $p ] || p=$d/patch.diff
   if ! git -C /repo apply /verif/$p 2>/dev/null; then echo "$n: PATCH DOES NOT APPLY"; miss=1; continue; fi
   timeout 900 ./check $id quick > /tmp/run_seeds.$$ 2>&1; rc=$?
-  key=$(grep -m1 "^  key=" /tmp/run_seeds.$$ | sed 's/ :: .*//; s/^ *//')
+  key=$(grep -a -m1 "^  key=" /tmp/run_seeds.$$ | sed 's/ :: .*//; s/^ *//')
   git -C /repo checkout -- .
   if [ $rc = 1 ]; then echo "$n: detected ($key)"; elif grep -q neutralised $d/meta.json; then echo "$n: not reported (neutralised by a fix, expected)"; else echo "$n: MISSED rc=$rc"; miss=1; fi
 done
